@@ -126,6 +126,17 @@ pub fn run_auth(args: &Args) -> (u64, u64) {
             }
         }
     }
+    // degenerate salts in the stored record: all zero, all 0xFF, zero at either end (the client does not reject them)
+    if h.det.is_none() {
+        for (k, salt) in [[0u8; 32], [0xff; 32], { let mut x = [0x11u8; 32]; x[0] = 0; x }, { let mut x = [0x22u8; 32]; x[31] = 0; x }].iter().enumerate() {
+            h.reset("auth-salts");
+            let (u, p) = CREDS[k % CREDS.len()];
+            let prm = Params { user: u, pass: p, typed_user: u, typed_pass: p, salt: Some(*salt), b: None, a: None, storage: true };
+            if let Some(mut sess) = honest_login(&mut h, &prm) {
+                good_reconnect(&mut h, &mut sess);
+            }
+        }
+    }
     // corpus of rare key classes (inputs only; TLC re-establishes the class from the trace)
     if let Some(path) = &args.scen {
         for c in read_ndjson(path) {
@@ -266,6 +277,29 @@ pub fn run_tamper(args: &Args) -> (u64, u64) {
             let cc = h.clone_event(co);
             h.verify_server_proof(cc, chal.clone(), a20(&flip(&m2, bit)));
         }
+        // differences in several bytes at once (same mask in two bytes, swapped bytes, complemented tail)
+        for j in 0..(if all { 40 } else { 10 }) {
+            let (x, y) = ((j * 3 + bi) % 20, (j * 7 + 5 + bi) % 20);
+            if x == y {
+                continue;
+            }
+            let mut t = m1;
+            t[x] ^= 1 << (j % 8);
+            t[y] ^= 1 << (j % 8);
+            let (pc, pp) = clone_proof(&mut h, po, &proof);
+            h.into_server(pc, pp, apub, t);
+            let mut t2 = m2;
+            t2[x] ^= 1 << (j % 8);
+            t2[y] ^= 1 << (j % 8);
+            let cc = h.clone_event(co);
+            h.verify_server_proof(cc, chal.clone(), t2);
+            let mut t3 = m1;
+            t3.swap(x, y);
+            if t3 != m1 {
+                let (pc, pp) = clone_proof(&mut h, po, &proof);
+                h.into_server(pc, pp, apub, t3);
+            }
+        }
         // A bit flips as the server sees them
         for bit in (0..256).step_by(step) {
             let fa = arr32(&flip(&abytes, bit));
@@ -295,7 +329,7 @@ pub fn run_tamper(args: &Args) -> (u64, u64) {
         }
         // other passwords / usernames (must be refused) and case-only variants (must be accepted)
         let mut others: Vec<(String, String)> = vec![];
-        for _ in 0..8 {
+        for _ in 0..(if thorough { 200 } else { 40 }) {
             others.push((u.clone(), rand_cred(&mut rng)));
             others.push((rand_cred(&mut rng), p.clone()));
         }
@@ -528,6 +562,12 @@ pub fn run_pubkey(args: &Args) -> (u64, u64) {
                 h.pubkey(mask_key(!((1u32 << i) | (1 << j))));
             }
         }
+    }
+    // prefixes and suffixes of N (N mod 256^j, N with its low j bytes cleared) and their complements
+    for j in 1..32u32 {
+        let low = (1u32 << j) - 1;
+        h.pubkey(mask_key(low));
+        h.pubkey(mask_key(!low));
     }
     let nmask = if thorough { 20000 } else { 2000 };
     for _ in 0..nmask {
